@@ -30,6 +30,25 @@ from twosigma.memento.serialization import MementoCodec
 from twosigma.memento.types import MementoFunctionType
 
 
+def _stable_repr(o) -> str:
+    """
+    `repr` of a constant, except that the elements of a frozenset (a folded set literal) are
+    rendered in sorted order: the iteration order of a frozenset depends on the hash seed of
+    the process, which must not leak into the code hash.
+
+    """
+    if isinstance(o, frozenset) and o:
+        return "frozenset({" + ", ".join(sorted([_stable_repr(x) for x in o])) + "})"
+    if isinstance(o, tuple):
+        return (
+            "("
+            + ", ".join([_stable_repr(x) for x in o])
+            + ("," if len(o) == 1 else "")
+            + ")"
+        )
+    return repr(o)
+
+
 def fn_code_hash(fn: Callable, salt: str = None, environment: bytes = None) -> str:
     """
     Compute a hex digest of the code for a function.
@@ -77,7 +96,7 @@ def fn_code_hash(fn: Callable, salt: str = None, environment: bytes = None) -> s
             sha256.update(json.dumps(attr_values, sort_keys=True).encode("utf-8"))
             return sha256.hexdigest()[0:16]
         else:
-            return repr(o)
+            return _stable_repr(o)
 
     if isinstance(fn, MementoFunctionType):
         memento_fn = fn  # type: MementoFunctionType
